@@ -8,6 +8,7 @@ void register_c07();
 void register_c16();
 void register_c18();
 void register_c20();
+void register_io();
 void register_all_properties() {
   static bool done = false;
   if (done) return;
@@ -19,5 +20,6 @@ void register_all_properties() {
   register_c16();
   register_c18();
   register_c20();
+  register_io();
 }
 }
